@@ -1890,7 +1890,7 @@ bn_import_be_bin(bn_p bn, const uint8_t *buf, size_t buf_size) {
 	BN_PREFETCH_BN_DATA(bn);
 	BN_RET_ON_ERR(bn_digits_import_be_bin(bn->num, bn->count, buf, buf_size,
 	    &digits));
-	bn_update_digits__int(bn, digits);
+	bn->digits = bn_digits_calc_digits(bn->num, digits);
 	return (0);
 }
 /* Export big-endian bin num. Reverse bytes copy (H->L). */
@@ -1912,7 +1912,7 @@ bn_import_le_bin(bn_p bn, const uint8_t *buf, size_t buf_size) {
 	BN_POINTER_CHK_EINVAL(bn);
 	BN_RET_ON_ERR(bn_digits_import_le_bin(bn->num, bn->count, buf, buf_size,
 	    &digits));
-	bn_update_digits__int(bn, digits);
+	bn->digits = bn_digits_calc_digits(bn->num, digits);
 	return (0);
 }
 /* Export to little-endian bin num / Normal copy (L->H). */
